@@ -255,7 +255,20 @@ func identifierLookup(c *Ctx) {
 		if !ok || len(as.Lhs) != 1 || len(as.Rhs) != 1 {
 			return true
 		}
-		if ce, isCall := as.Rhs[0].(*ast.CallExpr); isCall && calleeBase(d, ce, "") == "SoftwareIdentifierTypeFromString" && len(ce.Args) == 1 && objOf(d.pkg, ce.Args[0]) == pType && pType != nil {
+		rhs := as.Rhs[0]
+		// the resolved type may be converted on the spot: int32(SoftwareIdentifierTypeFromString(t))
+		for {
+			cv, isCall := rhs.(*ast.CallExpr)
+			if !isCall || len(cv.Args) != 1 {
+				break
+			}
+			if tv, ok := d.pkg.TypesInfo.Types[cv.Fun]; ok && tv.IsType() {
+				rhs = cv.Args[0]
+				continue
+			}
+			break
+		}
+		if ce, isCall := rhs.(*ast.CallExpr); isCall && calleeBase(d, ce, "") == "SoftwareIdentifierTypeFromString" && len(ce.Args) == 1 && objOf(d.pkg, ce.Args[0]) == pType && pType != nil {
 			idObj = objOf(d.pkg, as.Lhs[0])
 			fromParam = true
 		}
@@ -776,6 +789,23 @@ func keyShape(d *declInfo, defs map[types.Object]ast.Expr, e ast.Expr, depth int
 			case b.Info()&types.IsInteger != 0:
 				return "<int>"
 			case b.Info()&types.IsString != 0:
+				// a transformed operand is a different key component: <str:strings.ToLower>
+				y := chase(d.pkg, defs, x)
+				for {
+					p, isP := y.(*ast.ParenExpr)
+					if !isP {
+						break
+					}
+					y = p.X
+				}
+				if ce, isCall := y.(*ast.CallExpr); isCall {
+					if tv, ok := d.pkg.TypesInfo.Types[ce.Fun]; !ok || !tv.IsType() {
+						if f, _ := typeutil.Callee(d.pkg.TypesInfo, ce).(*types.Func); f != nil {
+							return "<str:" + f.FullName() + ">"
+						}
+						return "<str:?>"
+					}
+				}
 				return "<str>"
 			}
 		}
@@ -828,7 +858,7 @@ func keyShape(d *declInfo, defs map[types.Object]ast.Expr, e ast.Expr, depth int
 				case 'd', 's', 'v':
 					if arg < len(x.Args) {
 						cl := classOf(x.Args[arg])
-						if (f[i] == 'd' && cl != "<int>") || (f[i] == 's' && cl != "<str>") {
+						if (f[i] == 'd' && cl != "<int>") || (f[i] == 's' && !strings.HasPrefix(cl, "<str")) {
 							cl = "<?>"
 						}
 						out += cl
